@@ -324,16 +324,25 @@ pub fn main(rest: &[String]) -> i32 {
             let cm_eff = prev.and_then(|p| ctx.countermove_table.get(game.player, p));
             let hist: Vec<i32> = pools.quiets.iter().map(|q| ctx.history_table.get(game.player, *q)).collect();
 
-            let ctx_ref = &ctx;
+            // In a real search the remembered moves change while a node's picker is suspended between two calls of next()
+            // (descendants write killers and counter moves).  One run in four rewrites them between the calls: the stream must
+            // still be exactly the legal moves, each once (the model's predicted ORDER is not compared for these runs).
+            let mutate = !loud && rng.gen_range(0..4) == 0 && !pools.quiets.is_empty();
             let res = catch_unwind(AssertUnwindSafe(|| {
                 let mut picker = if loud { MovePicker::new_loud() } else { MovePicker::new(hash) };
                 let mut out: Vec<i64> = Vec::new();
                 let mut cut = false;
-                while let Some(m) = picker.next(game, ctx_ref, ply) {
+                while let Some(m) = picker.next(game, &ctx, ply) {
                     out.push(proj::pack_move(m));
                     if out.len() >= CUT {
                         cut = true;
                         break;
+                    }
+                    if mutate && rng.gen_range(0..2) == 0 {
+                        if let (Some(p), Some(c)) = (prev, pick(&pools.quiets, &mut rng)) {
+                            ctx.countermove_table.set(game.player, p, c);
+                        }
+                        ctx.killer_moves.verif_set(ply, pick(&pools.quiets, &mut rng), pick(&pools.quiets, &mut rng));
                     }
                 }
                 (out, cut)
@@ -391,7 +400,7 @@ pub fn main(rest: &[String]) -> i32 {
             }
             runs.push(json!({
                 "loud": if loud { 1 } else { 0 }, "ply": ply, "hash": h, "k1": a1, "k2": a2, "cm": c,
-                "hist": hist, "outcome": outcome, "out": out,
+                "hist": hist, "outcome": outcome, "out": out, "mut": if mutate { 1 } else { 0 },
             }));
         }
         let mut ev: Map<String, Value> = proj::position(game);
